@@ -36,7 +36,7 @@ GenNext ==
                               /\ By(co[id].own) /\ adv' = FALSE /\ must' = id
 GenSpec == GenInit /\ [][GenNext]_gvars
 EmitAll == (~ ENABLED GenNext) => PrintT(<<"KERNELGEN", ToJson(hist)>>)
-Header == PrintT(<<"KERNELHDR", ToJson([name |-> Name, setup |-> Setup, script |-> Script, delay |-> Delay,
+Header == PrintT(<<"KERNELHDR", ToJson([name |-> Name, setup |-> Setup, script |-> Script, delay |-> Delay, taskBatch |-> IF Name = "starve" THEN 1 ELSE 100,
                                         t0 |-> CHOOSE t \in Times : \A u \in Times : t <= u])>>)
 ASSUME Header
 =============================================================================
